@@ -226,6 +226,14 @@ func (e *Enc) havocAssigns(fr *Frame, con *FuncContract, env *evalEnv, st *State
 			e.havocAll(st, why)
 			return
 		}
+		if sv.wlog {
+			for _, n := range []string{"W:len", "W:kind", "W:int", "W:str"} {
+				r := e.wReg(n)
+				_, es := arrayElemSort(r.sort)
+				e.setReg(st, r, tb.Store(e.reg(st, r), sv.t, tb.Fresh("hv_log_"+why, es)))
+			}
+			continue
+		}
 		if sv.addr == nil {
 			e.contractError(fr, "assigns", fmt.Errorf("`%s` does not denote a location", cl.text))
 			e.havocAll(st, why)
@@ -252,6 +260,12 @@ func (e *Enc) assignRegs(callee *ssa.Function, cl clause, ws *writeSet) bool {
 	}
 	env := e.envForCall(callee, args, nil, &st, &st)
 	sv, err := env.evalAny(cl.expr)
+	if err == nil && sv.wlog {
+		for _, n := range []string{"W:len", "W:kind", "W:int", "W:str"} {
+			ws.regs[e.wReg(n).name] = true
+		}
+		return true
+	}
 	if err != nil || sv.addr == nil {
 		return false
 	}
@@ -754,6 +768,15 @@ func (e *Enc) envAt(fr *Frame, st *State, head *ssa.BasicBlock) *evalEnv {
 					if phi.Comment == "rangeindex" {
 						env.vars["rangeidx"] = SV{t: e.tb.Add(v.t(), e.tb.Int(1)), typ: types.Typ[types.Int]}
 					}
+				}
+			}
+		}
+	}
+	if head != nil {
+		for _, in := range head.Instrs {
+			if nx, ok := in.(*ssa.Next); ok && nx.IsString {
+				if c, ok := fr.rangeCount[nx.Iter.(*ssa.Range)]; ok {
+					env.vars["rangeidx"] = SV{t: c, typ: types.Typ[types.Int]}
 				}
 			}
 		}
